@@ -7,7 +7,7 @@ class Prop(PropBase):
     ID = "C20"
     LEAN_MODULES = ["Tpp.Props.C20", "Tpp.Lemmas.TablesTie"]
     REQUIRED = ["Tpp.Props.C20." + n for n in (
-        "C20_partial", "C20_counterexample", "C20_counterexample_stream", "C20_counterexample_atoi", "C20_colliding_set")] + \
+        "C20_partial", "C20_counterexample", "C20_counterexample_stream", "C20_large_parameter_names_no_key", "C20_colliding_set")] + \
                ["Tpp." + n for n in ("modifierTable_is_source", "cursorTable_is_source", "ss3Table_is_source", "keypadTable_is_source")]
     RULE = ("exhaustive: all 256 single bytes delivered to an idle decoder, to a decoder that has just seen CR and to one "
             "that has just seen LF (oracle: an ordinary unswallowed byte must come out as the non-abstract key of that "
@@ -15,7 +15,7 @@ class Prop(PropBase):
             "oracle (every abstract-key token of the REAL answer must be designated by its own sequence per "
             "Ref.designates, or be a line ending).  Random: item streams, UTF-8 text, random bytes, malformed streams.  "
             "Non-trivial: every case; distinct by line text.  Known findings are matched by failure kind "
-            "('C20 idle-byte 0x80', 'C20 atoi-wrap'); any other failure kind is a violation.")
+            "('C20 idle-byte 0x80'); the former 'C20 atoi-wrap' finding is fixed and would be reported again; any other failure kind is a violation.")
     ASSUMPTIONS = [
         "the xterm key tables are those transcribed in Tpp.Ref.Input (designates is liberal about extra parameters and private markers)",
         "the full statement is false on the current tree: C20_partial is proved with two exact exclusions, both known findings",
